@@ -83,6 +83,21 @@ def special_modules(rng):
             out.append(("operator", Module([f("k", [("a", t), ("b", t)], t if o in "+-*/" else "int", [Ret(B(o, V("a"), V("b")))])])))
     # unsigned subtraction below zero followed by a division (known finding KF-03)
     out.append(("uint-underflow", Module([f("w0", [("p2", "uint")], "uint", [Ret(B("/", V("p2"), B("-", B("-", V("p2"), V("p2")), V("p2"))))])])))
+    # functions that are not exported (they are written under their mangled name): overload sets, an internal overload of an exported function,
+    # an internal function named like an exported one of another signature
+    nf = lambda name, params, ret, body: Func(name, [Arg(t, n) for n, t in params], ret, Block(body), export=False)
+    out.append(("internal-functions", Module([nf("g", [("a", "int")], "int", [Ret(B("+", V("a"), I(1)))]), nf("g", [("a", "float")], "float", [Ret(B("*", V("a"), F("2.0")))]),
+                                              f("k", [("a", "int")], "int", [Ret(B("-", V("a"), I(3)))])])))
+    out.append(("internal-functions", Module([f("k", [("a", "int")], "int", [Ret(B("-", V("a"), I(3)))]), nf("k", [("a", "float")], "float", [Ret(B("*", V("a"), F("0.5")))])])))
+    out.append(("internal-functions", Module([nf("h", [("a", "int"), ("b", "int")], "int", [Ret(B("*", V("a"), V("b")))]), nf("h", [("a", "int")], "int", [Ret(V("a"))]),
+                                              nf("h", [], "float", [Ret(F("1.5"))]), f("m", [], "int", [Ret(I(7))])])))
+    out.append(("internal-functions", Module([nf("only", [("a", "uint")], "uint", [Ret(B("+", V("a"), V("a")))])])))
+    # stores to parameters and locals before the return (the backend translates loads of arguments only: anything else must be refused, not mistranslated)
+    out.append(("store-to-argument", Module([f("k", [("a", "int"), ("b", "int")], "int", [ES(A(V("a"), B("+", V("b"), I(1)))), Ret(B("*", V("a"), I(2)))])])))
+    out.append(("store-to-argument", Module([f("k", [("a", "int"), ("b", "int")], "int", [ES(A(V("a"), I(3), "+=")), Ret(B("+", V("a"), V("b")))])])))
+    out.append(("store-to-argument", Module([f("k", [("a", "float"), ("b", "float")], "float", [ES(A(V("b"), B("*", V("a"), F("0.5")))), Ret(B("+", V("a"), V("b")))])])))
+    out.append(("store-to-argument", Module([f("k", [("a", "int")], "int", [ES(Pre("++", "a")), Ret(V("a"))])])))
+    out.append(("store-to-argument", Module([f("k", [("a", "int"), ("b", "int")], "int", [Decl("int", "t", B("+", V("a"), V("b"))), ES(A(V("t"), B("*", V("t"), I(2)))), Ret(V("t"))])])))
     # names
     out.append(("names", Module([f("a_rather_long_function_name_to_make_the_export_section_longer_than_127_bytes_" + "x" * 60, [("a", "int")], "int", [Ret(V("a"))]), f("b", [], "int", [Ret(I(1))])])))
     return out
@@ -97,7 +112,7 @@ def build_jobs(rng, quick, nrandom):
         text, _ = nslgen.render(m, "canonical", rng)
         calls = []
         for fn in [x for x in m["items"] if x["k"] == "func"]:
-            if any(a.get("dims") or a["t"] not in ("int", "uint", "float") for a in fn["args"]):
+            if any(a.get("dims") or a["t"] not in ("int", "uint", "float") for a in fn["args"]) or not fn.get("export"):
                 continue
             for _ in range(3):
                 named = g.args(fn)
